@@ -42,16 +42,13 @@ fn next_half(
 ) -> usize {
 	let half = slice.len() / 2;
 
-	// Values are compared numerically: `0.0` and `-0.0` are the same position in the sorted slice.
-	// (A bit-to-bit comparison here loses an element when both zeros are in the window.)
-	// Also it is not a good idea to use `match value.partial_cmp(slice[half]): it is slower.
-	#[allow(clippy::float_cmp)]
-	if value == *get(slice, half) {
-		padding + half
-	} else if &value > get(slice, half) {
-		f(value, get(slice, (half + 1)..), padding + half + 1)
-	} else {
-		f(value, get(slice, ..half), padding)
+	// The slice is kept in the IEEE total order (`-0.0` before `0.0`), for the search of a leaving value
+	// as well as for the insertion of a new one: the sorted slice is then a function of the window's
+	// content alone, which is what `Deserialize` rebuilds it from.
+	match value.total_cmp(get(slice, half)) {
+		Ordering::Equal => padding + half,
+		Ordering::Greater => f(value, get(slice, (half + 1)..), padding + half + 1),
+		Ordering::Less => f(value, get(slice, ..half), padding),
 	}
 }
 
@@ -255,18 +252,12 @@ impl<'de> Deserialize<'de> for SMM {
 
 		let mut slice = window.as_slice().to_owned().into_boxed_slice();
 
-		let mut sort_error = false;
-
-		slice.sort_unstable_by(|a, b| {
-			a.partial_cmp(b).unwrap_or_else(|| {
-				sort_error = true;
-				Ordering::Equal
-			})
-		});
-
-		if sort_error {
+		if slice.iter().any(|x| x.is_nan()) {
 			return Err(serde::de::Error::custom("SMM cannot operate NaN values"));
 		}
+
+		// the same (total) order `next` maintains
+		slice.sort_unstable_by(ValueType::total_cmp);
 
 		let half = window.len() / 2;
 		let is_even = window.len() % 2 == 0;
